@@ -96,9 +96,16 @@ def execute_all(modname: str, stimuli: list, procs: int = 16) -> list:
     results = [('skipped',)] * len(stimuli)
     hangs = 0
     with ctx.Pool(min(procs, os.cpu_count() or 1)) as pool:
-        it = pool.imap_unordered(_exec_indexed, [(i, modname, s) for i, s in enumerate(stimuli)],
-                                 chunksize=4)
-        for i, r in it:
+        it = pool.imap_unordered(_exec_indexed, [(i, modname, s) for i, s in enumerate(stimuli)])
+        while True:
+            try:
+                # (a worker killed from outside never delivers its chunk: do not wait for ever)
+                i, r = it.next(timeout=300)
+            except StopIteration:
+                break
+            except mp.TimeoutError:
+                pool.terminate()
+                raise MachineryError('no result from the worker pool for 300 s (a worker process died?)')
             results[i] = r
             if r[0] == 'crash' and r[1] == 'hang':
                 hangs += 1
